@@ -5,5 +5,6 @@ CONSTANTS
   WithPlans = TRUE
   BlockBudget = 9
   MinDecls = 38
+  CallsOnly = FALSE
   Rich = TRUE
 CHECK_DEADLOCK FALSE
